@@ -184,4 +184,17 @@ def _mat_getitem_cols(interp, self: Mat, args, kwargs):
             src = self.buf.fn
             bs = snapshot(b)
             return Mat(self.rows, b.length, lambda i, j: src(i, to_num(bs(j)).z), elem=self.elem)
+    if isinstance(idx, Vec) and idx.elem == "int":
+        # fancy row selection M[idx]
+        ctx = interp.ctx
+        rows = zint(self.rows)
+        ctx.prove_forall("safe:row-index-in-bounds", "safe", idx.length,
+                         lambda k: z3.And(to_num(vget(ctx, idx, k)).z >= -rows, to_num(vget(ctx, idx, k)).z < rows))
+        src = self.buf.fn
+        bs = snapshot(idx)
+
+        def fn(i, j):
+            r = to_num(bs(i)).z
+            return src(z3.If(r < 0, r + rows, r), j)
+        return Mat(idx.length, self.cols, fn, elem=self.elem)
     return _old_mat_getitem(interp, self, args, kwargs)
